@@ -2417,12 +2417,13 @@ def BHJM_cylinder_segment(
     if not np.any(mask_not_on_surf):
         return BHJM * 0
 
+    # B and H are set to 0 on the surface, hence J and M as well (B = mu0*H + J)
     if field == "J":
-        BHJM[~mask_inside] = 0
+        BHJM[~(mask_inside & mask_not_on_surf)] = 0
         return BHJM
 
     if field == "M":
-        BHJM[~mask_inside] = 0
+        BHJM[~(mask_inside & mask_not_on_surf)] = 0
         return BHJM / MU0
 
     BHJM *= 0
